@@ -312,7 +312,19 @@ func (m *c16M) evalUnary(f *c16Frame, x *ast.UnaryExpr) c16Val {
 	}
 	v := m.eval(f, x.X)
 	if o, ok := v.(*c16Opq); ok {
-		return &c16Opq{typ: f.info.TypeOf(x), why: x.Op.String() + o.why}
+		return &c16Opq{typ: f.info.TypeOf(x), why: x.Op.String() + o.why, deps: o.deps, cmp: o.cmp, neg: o.neg != (x.Op == token.NOT)}
+	}
+	if x.Op == token.SUB {
+		if sv, isSym := v.(*c16Sym); isSym || (func() bool { fl, ok := v.(c16Flt); return ok && fl.tok != "" })() {
+			if !isSym {
+				sv, _ = c16ToSym(v)
+			}
+			neg := &c16Sym{deps: sv.deps}
+			if sv.poly != nil {
+				neg.poly = c16PolyMul(sv.poly, c16Poly{"": -1})
+			}
+			return neg
+		}
 	}
 	switch x.Op {
 	case token.NOT:
